@@ -61,6 +61,8 @@ func (j *jsonCodec) HandleRead(ctx netty.InboundContext, message netty.Message) 
 	// decode to map
 	var object = make(map[string]interface{})
 	utils.Assert(jsonDecoder.Decode(&object))
+	// a JSON null decodes without error into a nil map, but it is not an object.
+	utils.AssertIf(nil == object, "json: frame does not contain an object")
 
 	// post object
 	ctx.HandleRead(object)
